@@ -322,10 +322,48 @@ def enum_vocab(tier, shard, nshards):
             yield c
 
 
+def check_big(r) -> list[Fail]:
+    """texts beyond the 1 MiB / 4 MiB marks (block-wise readers, buffer sizes): an ensemble of many conformers of a bundled molecule"""
+    import molli as ml
+
+    m = ml.Molecule.load_mol2(getattr(ml.files, r["file"]))
+    nc = r["n_conf"]
+    coords = np.array([np.asarray(m.coords) + 0.001 * k for k in range(nc)])
+    ens = ml.ConformerEnsemble(m, n_conformers=nc, coords=coords, atomic_charges=np.array([np.asarray(m.atomic_charges)] * nc))
+    text = ens.dumps_mol2()
+    tally(labels={"text_MiB": round(len(text) / 2**20, 2)})
+    fails: list[Fail] = []
+    try:
+        back = ml.ConformerEnsemble.loads_mol2(text)
+        mols = ml.Molecule.loads_all_mol2(text)
+    except Exception as e:
+        from vf.core import exc_sig
+        return [Fail(f"big:roundtrip-raises:{exc_sig(e) or type(e).__name__}", f"{len(text)} characters, {nc} conformers: {e!r}"[:300])]
+    if back.n_conformers != nc or len(mols) != nc:
+        return [Fail("big:conformer-count-differs", f"{nc} -> {back.n_conformers} / {len(mols)} ({len(text)} characters)")]
+    if not np.allclose(back.coords, coords, atol=6e-5, rtol=0):
+        k = int(np.argmax(np.max(np.abs(back.coords - coords), axis=(1, 2))))
+        fails.append(Fail("big:coordinates-differ", f"conformer {k} of {nc}: max dev {np.max(np.abs(back.coords[k] - coords[k])):.3e}"))
+    for k in (0, nc // 2, nc - 1):
+        if [int(a.element) for a in mols[k].atoms] != [int(a.element) for a in m.atoms] or mols[k].n_bonds != m.n_bonds:
+            fails.append(Fail("big:molecule-differs", f"molecule {k} of {nc}"))
+            break
+    return fails
+
+
+def enum_big(tier, shard, nshards):
+    cases = [{"file": "dendrobine_mol2", "n_conf": 450}] + ([{"file": "dendrobine_mol2", "n_conf": 1500}, {"file": "fxyl_mol2", "n_conf": 900}] if tier != "quick" else [])
+    for i, c in enumerate(cases):
+        if i % nshards == shard:
+            yield c
+
+
 LEGS = [
     Leg("vocab", check_vocab, lambda r: (False, ["what=" + r["what"]]), enumerate=enum_vocab, exhaustive=True, shards={"quick": 32, "thorough": 32},
         rule="every member of Element x AtomType x AtomGeom enumerated from the tree (119 x 21 x 18 = 44 982 on this tree) as a one-atom Molecule, every BondType on a two-atom Molecule and Structure: "
              "write, read (must be accepted), element equal, second write textually equal; evaluations = combinations; each distinct combination counts as non-trivial"),
+    Leg("big", check_big, lambda r: (True, ["file=" + r["file"], f"n_conf={r['n_conf']}"]), enumerate=enum_big, shards={"quick": 1, "thorough": 3},
+        rule="mol2 texts beyond 1 MiB (thorough: 4 MiB): 450-1500 conformers of a bundled molecule written as one ensemble, read back as ensemble and as a molecule list; conformer count, every coordinate, sampled constitution"),
     Leg("rand", check_rand, classify_rand, strategy=strat_rand, n={"quick": 2500, "thorough": 50000}, shards={"quick": 16, "thorough": 32},
         rule="generated Molecule / Structure / Substructure view (subset of the atoms in its own order) / ConformerEnsemble (>=1 conformer), whitespace-free labels or None/'', all enum members, |x|<1e5 plus NaN, charges |q|<=3, all bond types; "
              "entry points loads / loads_all / load(stream) / ConformerEnsemble.loads_mol2; non-trivial = >=2 atoms, >=1 bond and a non-default atom/bond type or non-zero charge"),
